@@ -62,6 +62,13 @@ def run_C15(case):
             else:
                 B.backend, B.folder, B.disk = "sim", "/idx", SimDisk()
             B.encoding, B.traph = "utf-8", None
+            if overwrite and cfg.get("used_folder"):
+                # overwrite=True on a folder that already holds an older index
+                B.open(lrugen.RULES["domain"], {})
+                for old_lru in cfg["used_folder"]:
+                    B.traph.add_page(O.arg(old_lru))
+                B.close()
+                res.probes["overwrite_on_used_folder"] += 1
             B.open(default, rules, overwrite=overwrite)
             every = cfg.get("sweep_every", 4) or 10**9
             n = len(case["ops"])
@@ -158,6 +165,8 @@ def gen_C15(rng, tier, seed):
     c = g.case(seed)
     c["ops"] = [o for o in c["ops"] if o["op"] != "reopen"]
     c["config"]["overwrite"] = rng.random() < 0.4
+    if c["config"]["overwrite"] and rng.random() < 0.6:
+        c["config"]["used_folder"] = [O.enc(g.lru()) for _ in range(rng.randint(1, 4))]
     c["config"]["backend"] = "real" if rng.random() < 0.2 else "sim"
     c["config"]["sweep_every"] = rng.choice([1, 2, 4, 8])
     return c
